@@ -277,7 +277,9 @@ class World:
                 except Exception:  # noqa: BLE001
                     same_path = False
                 if not same_path:
-                    bad.append(("I5", f"{a} pointed at {old}; after set_member stored {self.sid(stored)} at that key, {a} targets {self.sid(al._target)}"))
+                    refused = self._pre_path(pre, val) == self._pre_path(pre, a)
+                    bad.append(("I5", f"{a} pointed at {old}; after set_member stored {self.sid(stored)} at that key, {a} targets {self.sid(al._target)}",
+                                "refused-by-stale-value-path" if refused else "-"))
 
     @staticmethod
     def _pre_attached(pre, oid):
@@ -437,10 +439,17 @@ def real_loads(run: Run, griffe, packages: list):
     run.extra["real_load_members"] += count
 
 
+ALL = {"SKIP": "{}", "SEEDS": "{1, 2, 3}"}
 MODES = {
-    "clean": {"LOST": "FALSE", "TOPDOWN": "TRUE"},
-    "free": {"LOST": "FALSE", "TOPDOWN": "FALSE"},
-    "lost": {"LOST": "TRUE", "TOPDOWN": "TRUE"},
+    "clean": dict(ALL, LOST="FALSE", TOPDOWN="TRUE"),
+    "free": dict(ALL, LOST="FALSE", TOPDOWN="FALSE"),
+    "lost": dict(ALL, LOST="TRUE", TOPDOWN="TRUE"),
+}
+# slices of the universe explored deeper, printing only the transitions that exercise the rarely
+# reached branches of set_member (re-targeting loop with >= 1 listed alias, implicit stub merge)
+SLICES = {
+    "retarget": ("free", dict(LOST="FALSE", TOPDOWN="FALSE", SKIP='{"m2", "f2", "x1", "a2"}', SEEDS="{3}"), 4, 5),
+    "merge": ("free", dict(LOST="FALSE", TOPDOWN="FALSE", SKIP='{"k1", "k2", "f1", "a1", "a3"}', SEEDS="{1}"), 6, 7),
 }
 EXPECT = {"clean": [], "free": ["I6_BackrefListed"], "lost": ["I2_NoLostWrite"]}
 
@@ -467,16 +476,18 @@ def main(tier: str, replay: str | None = None):
 
     from gverif.common import die
 
-    depth_check = 4 if tier == "quick" else 5
+    depth_check = 3 if tier == "quick" else 5
     depth_gen = 2 if tier == "quick" else 3
     cap = 12000 if tier == "quick" else 300000
     nsim = 100 if tier == "quick" else 2000
     jobs = {}
     with ThreadPoolExecutor(max_workers=8) as pool:
         for mode, consts in MODES.items():
-            d = depth_check if mode != "lost" else depth_check - 1
+            d = {"clean": depth_check, "free": 4, "lost": 3}[mode]
             jobs["check", mode] = pool.submit(tlc.run, "Tree", "Tree_check.cfg", workers=5, constants=dict(consts, DEPTH=d), timeout=6000, heap="6g", dump_trace=True)
             jobs["gen", mode] = pool.submit(tlc.run, "Tree", "Tree_gen.cfg", workers=2, constants=dict(consts, GEN="trans", DEPTH=depth_gen), timeout=6000, heap="6g")
+        for name, (_, consts, dq, dt) in SLICES.items():
+            jobs["rare", name] = pool.submit(tlc.run, "Tree", "Tree_rare.cfg", workers=3, constants=dict(consts, DEPTH=dq if tier == "quick" else dt), timeout=6000, heap="4g")
         for mode in ("clean", "free"):
             jobs["sim", mode] = pool.submit(tlc.run, "Tree", "Tree_gen.cfg", workers=1, constants=dict(MODES[mode], GEN="hist", DEPTH=14), simulate=f"num={nsim}", depth=15, seed=SEED + 1, timeout=6000)
     model_verdicts = {}
@@ -515,6 +526,18 @@ def main(tier: str, replay: str | None = None):
                 seen.add(k)
                 uniq.append(c)
         drift += replay_transitions(run, griffe, uniq, mode, cap if mode == "clean" else cap // 2, rnd)
+    for name, (mode, _, _, _) in SLICES.items():
+        res = jobs["rare", name].result()
+        tlc.must(res)
+        run.add_tlc(res)
+        seen, uniq = set(), []
+        for c in res.cases:
+            k = json.dumps([c["pre"], c["op"]], sort_keys=True)
+            if k not in seen:
+                seen.add(k)
+                uniq.append(c)
+        run.extra.setdefault("rare_transitions", {})[name] = len(uniq)
+        drift += replay_transitions(run, griffe, uniq, mode, cap, rnd)
     for mode in ("clean", "free"):
         res = jobs["sim", mode].result()
         if res.errors:
